@@ -538,9 +538,13 @@ def b_rigid(case, ctx):
     elif kind in ("stretch", "nonrigid"):
         # deviation of L L^T from I is at least 1e-6, two orders beyond the default epsilon=1e-8
         harness(dev >= 1e-6, f"non-rigid generator produced dev={dev}")
-        check(not bool(got), f"C19.rigid|is_rigid|accepts_nonrigid|{case.get('dir', case.get('cls', ''))}", lambda: f"max|L L^T - I| = {dev:.3g} but is_rigid -> True; M={M.tolist()}")
+        D = L @ L.T - np.eye(3)
+        shape = "uniform_deviation" if float(D.max() - D.min()) < 1e-8 else "other"  # all nine entries of L L^T - I (almost) equal
+        check(not bool(got), f"C19.rigid|is_rigid|accepts_nonrigid|{shape}", lambda: f"max|L L^T - I| = {dev:.3g} but is_rigid -> True; M={M.tolist()}")
     elif kind == "lastrow":
-        check(not bool(got), "C19.rigid|is_rigid|accepts_bad_last_row", lambda: f"last row {M[3].tolist()} but is_rigid -> True")
+        off = M[3] - [0.0, 0.0, 0.0, 1.0]
+        shape = "uniform_offset" if float(off.max() - off.min()) < 1e-8 else "other"
+        check(not bool(got), f"C19.rigid|is_rigid|accepts_bad_last_row|{shape}", lambda: f"last row {M[3].tolist()} but is_rigid -> True")
 
 
 @body("C19.fix_rigid")
@@ -921,7 +925,7 @@ def kwargs_case(draw):
 # ------------------------------------------------------------------------------------------ sub-checks
 
 
-@subcheck("C19", "euler_grid", shards={"quick": 12, "thorough": 16})
+@subcheck("C19", "euler_grid", shards={"quick": 8, "thorough": 16})
 def s_euler_grid(ctx):
     if ctx.tier == "quick":
         ctx.enumerate("C19.euler", euler_grid(SPECIAL_QUICK), label="24_conventions_x_17_special_angles^3")
@@ -929,7 +933,7 @@ def s_euler_grid(ctx):
         ctx.enumerate("C19.euler", euler_grid(SPECIAL_FULL), label="24_conventions_x_31_special_angles^3")
 
 
-@subcheck("C19", "euler_quat_grid", shards={"quick": 12, "thorough": 16})
+@subcheck("C19", "euler_quat_grid", shards={"quick": 8, "thorough": 16})
 def s_euler_quat_grid(ctx):
     if ctx.tier == "quick":
         ctx.enumerate("C19.euler_quat", euler_grid(SPECIAL_QUICK), label="quat_24_conventions_x_17_special_angles^3")
@@ -942,14 +946,14 @@ def euler_case(draw):
     return {"axes": draw(st.sampled_from(ref.AXES24)), "a": [draw(angle(-4 * PI, 4 * PI)) for _ in range(3)]}
 
 
-@subcheck("C19", "euler_hyp", shards={"quick": 4, "thorough": 8})
+@subcheck("C19", "euler_hyp", shards={"quick": 3, "thorough": 8})
 def s_euler_hyp(ctx):
-    ctx.given("C19.euler", euler_case(), n={"quick": 4000, "thorough": 200000})
+    ctx.given("C19.euler", euler_case(), n={"quick": 2400, "thorough": 100000})
 
 
-@subcheck("C19", "euler_quat_hyp", shards={"quick": 4, "thorough": 8})
+@subcheck("C19", "euler_quat_hyp", shards={"quick": 3, "thorough": 8})
 def s_euler_quat_hyp(ctx):
-    ctx.given("C19.euler_quat", euler_case(), n={"quick": 4000, "thorough": 200000})
+    ctx.given("C19.euler_quat", euler_case(), n={"quick": 2400, "thorough": 100000})
 
 
 def _axis_angle_edge():
@@ -960,21 +964,21 @@ def _axis_angle_edge():
                 yield {"angle": t, "axis": [float(x) for x in ax], "point": pt}
 
 
-@subcheck("C19", "axis_angle", shards={"quick": 4, "thorough": 8})
+@subcheck("C19", "axis_angle", shards={"quick": 3, "thorough": 8})
 def s_axis_angle(ctx):
     ctx.enumerate("C19.axis_angle", _axis_angle_edge(), label="13_axes_x_31_special_angles_x_point")
-    ctx.given("C19.axis_angle", axis_angle_case(), n={"quick": 4000, "thorough": 150000})
+    ctx.given("C19.axis_angle", axis_angle_case(), n={"quick": 3000, "thorough": 80000})
 
 
-@subcheck("C19", "quat_matrix", shards={"quick": 4, "thorough": 8})
+@subcheck("C19", "quat_matrix", shards={"quick": 3, "thorough": 8})
 def s_quat_matrix(ctx):
     ctx.enumerate("C19.quat_matrix", ({"q": ref.unit(q).tolist()} for q in QGRID), label="quaternion_grid_{0,+-1,+-1.001}^4")
-    ctx.given("C19.quat_matrix", unit_quat().map(lambda q: {"q": q}), n={"quick": 3000, "thorough": 150000})
+    ctx.given("C19.quat_matrix", unit_quat().map(lambda q: {"q": q}), n={"quick": 2100, "thorough": 80000})
 
 
-@subcheck("C19", "quat_algebra", shards={"quick": 4, "thorough": 8})
+@subcheck("C19", "quat_algebra", shards={"quick": 3, "thorough": 8})
 def s_quat_algebra(ctx):
-    ctx.given("C19.quat_algebra", quat_pair_case(), n={"quick": 3000, "thorough": 100000})
+    ctx.given("C19.quat_algebra", quat_pair_case(), n={"quick": 2100, "thorough": 60000})
 
 
 def _slerp_edge():
@@ -987,10 +991,10 @@ def _slerp_edge():
                         yield {"q": [float(x) for x in q], "p": [sg * float(x) for x in p], "t": t, "shortest": sh, "s": 1.0}
 
 
-@subcheck("C19", "slerp", shards={"quick": 4, "thorough": 8})
+@subcheck("C19", "slerp", shards={"quick": 3, "thorough": 8})
 def s_slerp(ctx):
     ctx.enumerate("C19.slerp", _slerp_edge(), label="slerp_6x6_quaternions_x_sign_x_4_fractions_x_shortestpath")
-    ctx.given("C19.slerp", quat_pair_case(), n={"quick": 4000, "thorough": 150000})
+    ctx.given("C19.slerp", quat_pair_case(), n={"quick": 3000, "thorough": 80000})
 
 
 def _trs_edge():
@@ -1001,10 +1005,10 @@ def _trs_edge():
                     yield {"scale": sc, "shear": sh, "angles": [ai, aj, ak], "translate": [1.0, 2.0, 3.0]}
 
 
-@subcheck("C19", "trs", shards={"quick": 4, "thorough": 8})
+@subcheck("C19", "trs", shards={"quick": 3, "thorough": 8})
 def s_trs(ctx):
     ctx.enumerate("C19.trs", _trs_edge(), label="trs_gimbal_x_scale_x_shear_edge_grid")
-    ctx.given("C19.trs", trs_case(), n={"quick": 4000, "thorough": 150000})
+    ctx.given("C19.trs", trs_case(), n={"quick": 3000, "thorough": 80000})
 
 
 def _points_edge():
@@ -1022,10 +1026,10 @@ def _points_edge():
                         yield {"dim": dim, "cls": "edge_identity", "M": M.tolist(), "P": P, "translate": tr}
 
 
-@subcheck("C19", "points", shards={"quick": 4, "thorough": 8})
+@subcheck("C19", "points", shards={"quick": 3, "thorough": 8})
 def s_points(ctx):
     ctx.enumerate("C19.points", _points_edge(), label="identity_shortcut_edge_grid")
-    ctx.given("C19.points", points_case(), n={"quick": 5000, "thorough": 200000})
+    ctx.given("C19.points", points_case(), n={"quick": 3600, "thorough": 100000})
 
 
 def _scale_translate_cases():
@@ -1038,9 +1042,9 @@ def _scale_translate_cases():
 
 @subcheck("C19", "planar", shards={"quick": 2, "thorough": 4})
 def s_planar(ctx):
-    ctx.given("C19.planar", planar_case(), n={"quick": 2500, "thorough": 80000})
-    ctx.given("C19.around", around_case(), n={"quick": 2000, "thorough": 60000})
-    ctx.given("C19.kwargs", kwargs_case(), n={"quick": 1500, "thorough": 40000})
+    ctx.given("C19.planar", planar_case(), n={"quick": 2000, "thorough": 50000})
+    ctx.given("C19.around", around_case(), n={"quick": 1500, "thorough": 40000})
+    ctx.given("C19.kwargs", kwargs_case(), n={"quick": 1000, "thorough": 30000})
 
 
 @subcheck("C19", "scale_translate", shards={"quick": 1, "thorough": 1})
@@ -1050,12 +1054,12 @@ def s_scale_translate(ctx):
 
 @subcheck("C19", "rigid", shards={"quick": 2, "thorough": 4})
 def s_rigid(ctx):
-    ctx.given("C19.rigid", rigid_case(), n={"quick": 3000, "thorough": 100000})
+    ctx.given("C19.rigid", rigid_case(), n={"quick": 2500, "thorough": 60000})
 
 
 @subcheck("C19", "fix_rigid", shards={"quick": 2, "thorough": 4})
 def s_fix_rigid(ctx):
-    ctx.given("C19.fix_rigid", fix_rigid_case(), n={"quick": 2500, "thorough": 80000})
+    ctx.given("C19.fix_rigid", fix_rigid_case(), n={"quick": 2000, "thorough": 50000})
 
 
 def _align_edge():
@@ -1074,12 +1078,12 @@ def _align_edge():
 @subcheck("C19", "align", shards={"quick": 2, "thorough": 4})
 def s_align(ctx):
     ctx.enumerate("C19.align", _align_edge(), label="align_vectors_10x10_directions_and_tiny_angles")
-    ctx.given("C19.align", align_case(), n={"quick": 3000, "thorough": 100000})
+    ctx.given("C19.align", align_case(), n={"quick": 2500, "thorough": 60000})
 
 
 @subcheck("C19", "plane", shards={"quick": 2, "thorough": 4})
 def s_plane(ctx):
-    ctx.given("C19.plane", plane_case(), n={"quick": 2500, "thorough": 80000})
+    ctx.given("C19.plane", plane_case(), n={"quick": 2000, "thorough": 50000})
 
 
 REQUIRED_CLASSES["C19"] = [
